@@ -137,9 +137,13 @@ func (p *Program) codec() *codecTables {
 							break
 						}
 					}
-					if _, isIf := g.Nodes[n].(*ssa.If); isIf {
-						// *[]byte nil test: take the first branch
-						n = g.Succ[n][0]
+					if ifn, isIf := g.Nodes[n].(*ssa.If); isIf {
+						// *[]byte nil test: follow the non-nil branch (whichever way the test is written); other tests: first branch
+						k := 0
+						if f, okf := condFact(ifn.Cond, true); okf && f.IsNil && f.Op == token.EQL {
+							k = 1
+						}
+						n = g.Succ[n][k]
 						continue
 					}
 					if len(g.Succ[n]) != 1 {
